@@ -129,24 +129,21 @@ def generate(ctx, num):
     return scs
 
 
-def outpath_part(ctx, pid, extra_scenarios=None, only_extra=False):
-    if only_extra:
-        des, scs = dict(distinct=0, generated=0, refuted={}, wall=0), list(extra_scenarios)
-    else:
-        des = design(ctx) if not os.environ.get("VERIF_DEBUG_SKIP_DESIGN") else dict(distinct=0, generated=0, refuted={}, wall=0)
-        scs = [dict(w) for w in WITNESSES] + generate(ctx, 150 if ctx.quick else 3000)
+def _run_and_judge(ctx, scs, tag):
+    """force the schedules on the real client, let TLC judge the record; returns (lines, bad, trace states)"""
     vo = ctx.go_build("vout")
     lines, bad, tstates = [], [], 0
     for cap in (1, 2):
         part = [s for s in scs if s["cap"] == cap]
         if not part:
             continue
-        sfile, tfile, vfile = ctx.path("gen", "out_scen_%d.json" % cap), ctx.path("traces", "outpath_%d.ndjson" % cap), ctx.path("gen", "out_verdict_%d.json" % cap)
+        sfile, tfile, vfile = (ctx.path("gen", "out_scen_%s%d.json" % (tag, cap)), ctx.path("traces", "outpath_%s%d.ndjson" % (tag, cap)),
+                               ctx.path("gen", "out_verdict_%s%d.json" % (tag, cap)))
         json.dump(part, open(sfile, "w"))
         if os.path.exists(vfile):
             os.remove(vfile)
         ctx.run([vo, "run", sfile, tfile], timeout=3000)
-        r = ctx.tlc("TraceOutPath", "TraceOutPath_cap%d.cfg" % cap, name="trace_outpath_%d" % cap, workers=1, heap="6g", timeout=3000,
+        r = ctx.tlc("TraceOutPath", "TraceOutPath_cap%d.cfg" % cap, name="trace_outpath_%s%d" % (tag, cap), workers=1, heap="6g", timeout=3000,
                     env={"VERIF_TRACE": tfile, "VERIF_OUT": vfile})
         if not os.path.exists(vfile):
             sys.stderr.write(r.tail(40))
@@ -158,6 +155,36 @@ def outpath_part(ctx, pid, extra_scenarios=None, only_extra=False):
             b["_lines"] = ls
         bad += v["bad"]
         lines += ls
+    return lines, bad, tstates
+
+
+def _unsettled(bad):
+    """names of schedules whose record the model could not follow or whose run troubled the runner"""
+    return {b["scen"] for b in bad if any(c.startswith("conf.") or c.startswith("harness.") for c in b["complaints"])}
+
+
+def outpath_part(ctx, pid, extra_scenarios=None, only_extra=False):
+    if only_extra:
+        des, scs = dict(distinct=0, generated=0, refuted={}, wall=0), list(extra_scenarios)
+    else:
+        des = design(ctx) if not os.environ.get("VERIF_DEBUG_SKIP_DESIGN") else dict(distinct=0, generated=0, refuted={}, wall=0)
+        scs = [dict(w) for w in WITNESSES] + generate(ctx, 150 if ctx.quick else 3000)
+    lines, bad, tstates = _run_and_judge(ctx, scs, "")
+    # The only timing-based observation of the runner is "no schedule point reached within 25 ms"; on a loaded machine a goroutine
+    # can be later than that, and the record then does not follow the model. Such schedules are run once more, alone; the second
+    # record replaces the first (rules raised by either run are kept: they are observations of the real client).
+    again = _unsettled(bad)
+    if again and len(again) <= max(10, len(scs) // 10):
+        ctx.log("write path: %d schedules not followed by the model or troubled, run once more: %s" % (len(again), sorted(again)[:5]))
+        l2, b2, t2 = _run_and_judge(ctx, [s for s in scs if s["name"] in again], "again_")
+        keep = [b for b in bad if b["scen"] not in again]
+        for b in bad:
+            if b["scen"] in again:
+                rules = [c for c in b["complaints"] if not (c.startswith("conf.") or c.startswith("harness."))]
+                if rules:
+                    keep.append(dict(b, complaints=rules))
+        bad, tstates = keep + b2, tstates + t2
+        lines += l2
     by_name = {s["name"]: s for s in scs}
     steps = sum(1 for e in lines if e["ev"] == "step")
     diverged = {e["name"] for e in lines if e["ev"] == "step" and (e["got"] != e["g"] and e["w"] != "env" or e["goto"] != e["og"])}
@@ -183,9 +210,9 @@ def outpath_part(ctx, pid, extra_scenarios=None, only_extra=False):
             (len(scs), len(WITNESSES), steps, len(conf), rules_seen, len(diverged)))
     if not ctx.violations:
         if trouble:
-            raise Inconclusive("write-path runner trouble in %d schedules, e.g. %s" % (len(trouble), trouble[:2]))
+            raise Inconclusive("write-path runner trouble in %d schedules (twice), e.g. %s" % (len(trouble), trouble[:2]))
         if conf:
-            raise Inconclusive("the model of the code (OutPath.tla) does not describe %d recorded steps, e.g. %s" % (len(conf), conf[:3]))
+            raise Inconclusive("the model of the code (OutPath.tla) does not describe %d recorded steps (in two runs), e.g. %s" % (len(conf), conf[:3]))
     windows = set()
     for e in lines:
         if e["ev"] == "cfg":
